@@ -104,11 +104,16 @@ class C07(Check):
         if "err" in impl:
             if any(a.get("err") == impl["err"] for a in alts):
                 return None
+            if any(a.get("err") == impl["err"] for a in model.get("near", [])):
+                return "TIE: float near-tie (reproduced when every LP optimum is nudged by 1e-10)"
             return f"impl {impl['err']} vs model {[a.get('err', 'ok') for a in alts]}"
         w = G.w_tl(impl["ok"], vm)
         for a in alts:
             if "ok" in a and C.tls_close(w, a["ok"]):
                 return None
+        for a in model.get("near", []):
+            if "ok" in a and C.tls_close(w, a["ok"]):
+                return "TIE: float near-tie (reproduced when every LP optimum is nudged by 1e-10)"
         if alts[0] != {k: v for k, v in alts[1].items()} and json_ne(alts[0], alts[1]):
             return "TIE: implementation resolved exact ties in a mixed way"
         return f"impl kept {len(impl['ok'])} rows, model {[len(a['ok']) if 'ok' in a else a.get('err') for a in alts]}"
